@@ -36,6 +36,8 @@ EXPLANATION = (
     'counter already covers the ticket (a necessary condition for ForceFlush/Shutdown termination when the exporter fails).')
 EXPLANATION += ' C02.R10 (fan-out over the flow graph): every layer that forwards ForceFlush/Shutdown to a list of children makes the child call in every iteration (no short-circuit, condition or continue in front of it) and does not leave the loop early.'
 EXPLANATION += ' C02.R11 (relational): a pending flush ticket is published as served only on paths on which the whole snapshot was consumed (the count handed to Consume is the full size, or a nothing-left edge was passed). C02.R12 (dominance): once the worker has observed the shutdown flag it returns only behind an observation that the queue is empty. C02.R13 (must-reach): every provider destructor (tracer, meter, logger) reaches the Shutdown of its context on every path.'
+ROUND2_EXPLANATION = (' C02.R2 also requires that every ticket value that can be published was read before a queue snapshot on the way to the publication (every inlined copy of the completion helper). C02.R6 also: no thread of a class that drives an exporter is detached.')
+EXPLANATION += ROUND2_EXPLANATION
 NOT_DECIDED = ('termination/liveness of the timed loops under every interleaving and timeout; that a true ForceFlush '
                'really covered every record under all schedules (only the ordering/aggregation necessary conditions are decided).')
 
